@@ -82,12 +82,22 @@ Ladder(i, n) == IF i > n THEN <<>>
                                            ELSE << [k |-> "ref", ref |-> [p |-> "t", n |-> LName(i + 1)], min |-> 1, max |-> "1"],
                                                    [k |-> "ref", ref |-> [p |-> "t", n |-> LName(i + 1)], min |-> 0, max |-> "1"] >>)] >>
                      \o Ladder(i + 1, n)
+\* the same ladder in the "default namespace = target namespace" style: unprefixed references
+RECURSIVE PlainLadder(_, _)
+PlainLadder(i, n) == IF i > n THEN <<>>
+                     ELSE << [k |-> "element", n |-> LName(i),
+                              inline |-> Inline(IF i = n THEN << El("leaf", Str, 1, "1") >>
+                                                ELSE << [k |-> "ref", ref |-> [p |-> "", n |-> LName(i + 1)], min |-> 1, max |-> "1"],
+                                                        [k |-> "ref", ref |-> [p |-> "", n |-> LName(i + 1)], min |-> 0, max |-> "1"] >>)] >>
+                          \o PlainLadder(i + 1, n)
+PlainLadderXsd(n) == [name |-> "ladder.xsd", kind |-> "xsd", tns |-> "Urich", xmlns |-> << <<"", "Urich">> >>, items |-> PlainLadder(1, n)]
 LadderXsd(n) == [name |-> "ladder.xsd", kind |-> "xsd", tns |-> "Urich", xmlns |-> << <<"t", "Urich">> >>, items |-> Ladder(1, n)]
 
 Bases == << [label |-> "rich-xsd", start |-> "rich.xsd", files |-> <<RichXsd, OtherXsd>>, mutable |-> TRUE, feat |-> {}],
             [label |-> "wsdl", start |-> "svc.wsdl", files |-> <<SvcWsdl, OtherXsd>>, mutable |-> TRUE, feat |-> {}],
             [label |-> "self-referential", start |-> "selfref.xsd", files |-> <<SelfXsd>>, mutable |-> TRUE, feat |-> {"self_reference", "import_cycle"}],
             [label |-> "ladder-26", start |-> "ladder.xsd", files |-> <<LadderXsd(26)>>, mutable |-> FALSE, feat |-> {"ref_ladder"}],
+            [label |-> "ladder-unprefixed-26", start |-> "ladder.xsd", files |-> <<PlainLadderXsd(26)>>, mutable |-> FALSE, feat |-> {"ref_ladder"}],
             [label |-> "unknown-start", start |-> "rich.xsd", files |-> <<RichXsd, OtherXsd>>, mutable |-> FALSE, feat |-> {"start_unknown"},
              start_override |-> "missing.xsd"] >>
 
